@@ -329,7 +329,14 @@ pub struct MsgCase {
 }
 
 fn run_msg(c: &MsgCase) -> Outcome {
-    let second = if c.key.is_v6() { KeyKind::EcdsaP256V6 } else { KeyKind::EcdsaP256V4 };
+    // the second signer is a different key: two signatures by one key over the same data have
+    // equal protected fields and cannot be told apart when pairing them with their one-pass headers
+    let second = match (c.key.is_v6(), c.key) {
+        (true, KeyKind::EcdsaP256V6) => KeyKind::Ed25519V6,
+        (true, _) => KeyKind::EcdsaP256V6,
+        (false, KeyKind::EcdsaP256V4) => KeyKind::Ed25519V4,
+        (false, _) => KeyKind::EcdsaP256V4,
+    };
     let kinds: Vec<KeyKind> = if c.signers == 2 { vec![c.key, second] } else { vec![c.key] };
     let payload = msg::payload(c.n, c.text);
     let cfg = MsgCfg {
@@ -391,8 +398,15 @@ fn run_msg(c: &MsgCase) -> Outcome {
                     // the one-pass header paired with the verifying signature packet (OPS i brackets
                     // signature n-1-i) must agree with the original in the fields that determine hashing
                     let sig_packets: Vec<&(u8, Vec<u8>, Vec<u8>)> = ps.iter().filter(|p| p.0 == 2).collect();
-                    let ops_packets: Vec<&(u8, Vec<u8>, Vec<u8>)> = ps.iter().filter(|p| p.0 == 4).collect();
-                    let j = sig_packets.iter().position(|p| protected_view(&p.2) == vview && vview.is_some());
+                    // a one-pass packet of a version the library does not know is skipped by its
+                    // message parser (RFC 9580: unknown versions are ignored); it brackets nothing,
+                    // and positional pairing is only meaningful over the recognised ones
+                    let ops_packets: Vec<&(u8, Vec<u8>, Vec<u8>)> = ps.iter().filter(|p| p.0 == 4 && matches!(p.2.first(), Some(3 | 6))).collect();
+                    let vbytes = vsig.to_bytes().ok();
+                    let j = sig_packets
+                        .iter()
+                        .position(|p| Some(&p.2) == vbytes.as_ref())
+                        .or_else(|| sig_packets.iter().position(|p| protected_view(&p.2) == vview && vview.is_some()));
                     let pick = |d: &codec::Decoded, body: &[u8]| -> Vec<u8> {
                         d.fields
                             .iter()
